@@ -470,7 +470,8 @@ def check_c07(spec, P, tl_obj, backend, today):
         e = spec["domain"]
         e = [float(e[0]), float(e[1])] if kind == "linear" else [(D.fromisoformat(v) - tg.EPOCH) / tg.MS for v in e]
         d0, d1 = e  # independent of what the scale reports
-    elif not (min(d0, d1) <= min(tv) and max(tv) <= max(d0, d1)):
+    elif not (min(d0, d1) - 1e-6 * abs(d1 - d0) <= min(tv) and max(tv) <= max(d0, d1) + 1e-6 * abs(d1 - d0)):
+        # (nice() may land an end a few ulps inside the data through float rounding of k*step - C14's allowance)
         raise Violation("domain-does-not-cover-data", "derived domain [%r, %r], data span [%r, %r]" % (d0, d1, min(tv), max(tv)))
     deg = d0 == d1
     if not deg and d1 < d0:
@@ -561,7 +562,7 @@ def check_c07(spec, P, tl_obj, backend, today):
             near = sorted(got, key=lambda g: abs(g[0] - pos))[:2]
             raise Violation("datum-not-drawn", "no dot/box for datum at axis position %r with size in %r and text %r; nearest drawn: %r" % (pos, opt, txt, near))
     for p, r, col in P["dots"]:
-        if not (-1e-9 <= a(p) <= L + 1e-9):
+        if not (-1e-6 * L - 1e-9 <= a(p) <= L * (1 + 1e-6) + 1e-9):
             raise Violation("dot-off-axis-line", "dot at %r, axis runs 0..%r" % (p, L))
         if r != o.get("dotRadius", 3):
             raise Violation("dot-radius", "%r" % r)
